@@ -16,6 +16,7 @@
 #define FS_FD_BASE 900
 #define FS_FD_MAX  1024
 #define MAXNODES 512
+#define SIM_OPEN_MAX 1000
 typedef struct { char *path; unsigned char *data; size_t len; int mode; int isdir; int live; int is_temp; } node_t;
 static node_t nodes[MAXNODES];
 static int nnodes;
@@ -28,6 +29,8 @@ int simfs_spawns, simfs_tempfiles_created, simfs_tempfile_bad_mode, simfs_tempfi
 int simfs_fopen_calls, simfs_fopen_failed;
 char simfs_last_cmd[512];
 static int open_dirs;
+static int mkstemp_base_mode = 0600;
+void simfs_set_mkstemp_mode(int m) { mkstemp_base_mode = m; }
 int simenv_exit_called;
 
 static void norm(const char *in, char *out)
@@ -81,6 +84,7 @@ void simfs_reset(uint64_t seed)
     simfs_last_cmd[0] = 0;
     open_dirs = 0;
     simenv_exit_called = 0;
+    mkstemp_base_mode = 0600;
     simfs_add_dir("/");
     simfs_add_dir("/tmp");
 }
@@ -91,8 +95,9 @@ static int add_node(const char *path, const void *data, size_t len, int mode, in
     norm(path, p);
     for (i = 0; i < nnodes; i++) if (nodes[i].live && !strcmp(nodes[i].path, p)) break;
     if (i == nnodes) {
-        if (nnodes >= MAXNODES) return -1;
-        nnodes++;
+        /* reuse the slot of a removed file if there is one */
+        for (int k = 0; k < nnodes; k++) if (!nodes[k].live) { i = k; free(nodes[k].path); free(nodes[k].data); nodes[k].path = NULL; nodes[k].data = NULL; break; }
+        if (i == nnodes) { if (nnodes >= MAXNODES) return -1; nnodes++; }
         nodes[i].path = strdup(p);
     } else free(nodes[i].data);
     nodes[i].data = malloc(len + 1);
@@ -122,6 +127,9 @@ FILE *sim_fopen(const char *path, const char *mode)
         static const int en[FO_NMAX] = { [FO_ENOENT] = ENOENT, [FO_EMFILE] = EMFILE, [FO_EACCES] = EACCES, [FO_EIO] = EIO };
         int out = F_OUT(f);
         if (en[out]) { fault_fired(FC_OPEN, out); simfs_fopen_failed++; tr_printf("fopen %s -> %s", path, fo_names[out]); errno = en[out]; return NULL; }
+    }
+    if (simfd_open_streams() >= SIM_OPEN_MAX) {      /* per-process descriptor limit, as a real kernel has */
+        simfs_fopen_failed++; fault_fired(FC_OPEN, FO_EMFILE); tr_printf("fopen %.80s -> EMFILE(limit)", path); errno = EMFILE; return NULL;
     }
     i = find_node(path);
     if (i < 0) { simfs_fopen_failed++; tr_printf("fopen %.80s -> ENOENT", path); return NULL; }
@@ -267,7 +275,8 @@ int sim_mkstemp(char *tmpl)
     { char *slash = strrchr(p, '/'); if (slash && slash != p) { *slash = 0; if (find_node(p) < 0) { errno = ENOENT; return -1; } *slash = '/'; } }
     for (int i = 0; i < never; i++) if (!strcmp(ever_names[i], p)) simfs_tempfile_name_reused++;
     if (never < 2048) ever_names[never++] = strdup(p);
-    node = add_node(tmpl, "", 0, 0600 & ~(int)cur_umask, 0);
+    node = add_node(tmpl, "", 0, mkstemp_base_mode & ~(int)cur_umask, 0);
+    if (node >= 0 && (nodes[node].mode & 077)) simfs_tempfile_bad_mode++;      /* readable by others from the moment it exists */
     if (node < 0) { errno = ENOSPC; return -1; }
     nodes[node].is_temp = 1;
     for (int i = 0; i < FS_FD_MAX - FS_FD_BASE; i++) if (!fsfd[i].used) { fsfd[i].used = 1; fsfd[i].node = node; fd = i + FS_FD_BASE; break; }
